@@ -401,10 +401,17 @@ def conclude(pid, level, tier, seed, m, wall):
     with open(os.path.join(EVIDENCE_DIR, pid + '.json'), 'w') as f:
         json.dump(ev, f, indent=1, sort_keys=True, default=repr)
         f.write('\n')
-    for key, n in sorted(m['known_hits'].items()):
+    # one line per listed finding of this property, reached in this run or
+    # not (a finding that needs a rare schedule is not met by every seed)
+    keys = sorted(set(m['known_hits']) |
+                  {k for (p, k) in known if p == pid})
+    for key in keys:
         e = known.get((pid, key), {})
-        print('KNOWN-FINDING: property=%s %s: %s (observed %d times)' % (
-            pid, key, e.get('description', ''), n))
+        n = m['known_hits'].get(key, 0)
+        print('KNOWN-FINDING: property=%s %s: %s (%s)' % (
+            pid, key, e.get('description', ''),
+            'observed %d times' % n if n else
+            'listed; its mechanism was not met in this run'))
     print('%s tier=%s seed=%s: %d evaluations, %d distinct non-trivial, '
           '%d violations, %.1fs' % (pid, tier, seed, m['evaluations'],
                                     len(m['signatures']),
